@@ -345,7 +345,17 @@ def replay_cex(case, built, cex):
         for sig, s, _, f in ms:
             fmap[(a, s.to_bytes(4, "big"))] = f
     last = None
+    filters = case.get("filters") or {}
+    deployed = [a for a, x in accounts.items() if x.get("code")]
     for i, (addr, data, val, snd) in enumerate(calls, 1):
+        # admissibility of the printed call under Foundry's filter rules
+        if not spec_sender_ok(filters, snd):
+            return False, f"call {i}: sender {hex(snd)} is not admissible under targetSenders/excludeSenders"
+        if addr not in spec_target_contracts(filters, deployed, L.TEST_ADDR):
+            return False, f"call {i}: contract {hex(addr)} is not a target under the contract filters"
+        sigs = spec_selectors(filters, addr, L.TEST_ADDR, [(s_, n_, m_) for s_, n_, m_, _ in meths.get(addr, [])])
+        if not any(n_.to_bytes(4, "big") == data[:4] for s_, n_, m_, _ in meths.get(addr, []) if s_ in sigs):
+            return False, f"call {i}: selector 0x{data[:4].hex()} is not a target selector of {hex(addr)}"
         acc2 = {a: dict(x) for a, x in accounts.items()}
         if val:
             if snd in acc2:
